@@ -26,8 +26,10 @@ def explore(ctx):
     cases = []
     import loadgen as G
     yaml, yatiml = L.setup()
-    for c in LC.gen_cases(ctx, ctx.budget(500, 12000), mutate_p=0.45, prop='C01'):
-        if c.doc is not None and ctx.rng.random() < 0.3:
+    import itertools
+    for c in itertools.chain(LC.gen_cases(ctx, ctx.budget(500, 12000), mutate_p=0.45, prop='C01'),
+                             LC.alias_across_types(ctx, ctx.budget(40, 800))):
+        if c.doc is not None and ctx.rng.random() < 0.3 and not (c.desc and c.desc[0] == 'alias-across-types'):
             # tags at arbitrary nodes, keys included
             doc = c.doc
             for _ in range(ctx.rng.randint(1, 3)):
